@@ -915,7 +915,11 @@ class _SFTPFileCopier(_SFTPParallelIO[int]):
                                                self._bytes_copied,
                                                self._total_bytes)
             else:
+                data_end = 0
+
                 async for self._offset, self._bytes_left in ranges:
+                    data_end = max(data_end, self._offset + self._bytes_left)
+
                     async for _, datalen in self.iter():
                         self._bytes_copied += datalen
 
@@ -923,6 +927,11 @@ class _SFTPFileCopier(_SFTPParallelIO[int]):
                             self._progress_handler(self._srcpath, self._dstpath,
                                                    self._bytes_copied,
                                                    self._total_bytes)
+
+                if self._sparse and data_end < self._total_bytes:
+                    # The source ends in a hole, which no data range covers.
+                    # Extend the destination to the full size of the source.
+                    await self._dst.write(b'\0', self._total_bytes - 1)
 
                 if self._bytes_copied != self._total_bytes and not self._sparse:
                     exc = SFTPFailure('Unexpected EOF during file copy')
